@@ -45,6 +45,9 @@ type Config struct {
 	NAccounts        int  `json:"n_accounts"`
 	NBrowsers        int  `json:"n_browsers"`
 	WholeSecondClock bool `json:"whole_second_clock"`
+	// AppLogoutHook: the application registers an After(EventLogout) handler
+	// that answers the request itself (a redirect to a single-sign-out page)
+	AppLogoutHook bool `json:"app_logout_hook,omitempty"`
 	// OAuth2ExtraParams: the providers are configured with AdditionalParams
 	OAuth2ExtraParams bool `json:"oauth2_extra_params,omitempty"`
 	// DBZoneOffset (seconds east of UTC): the user store hands time values back
@@ -204,6 +207,7 @@ func baseConfig(r *Rng) Config {
 	c.NilEmptyState = r.Chance(1, 3)
 	c.SecondSite = r.Chance(1, 3)
 	c.OAuth2ExtraParams = r.Bool()
+	c.AppLogoutHook = r.Chance(1, 4)
 	if r.Chance(1, 3) {
 		c.DBZoneOffset = []int{3 * 3600, -5 * 3600, 5*3600 + 45*60, 14 * 3600, -11 * 3600}[r.Intn(5)]
 	}
